@@ -49,9 +49,11 @@ pub fn sweeps(ctx: &Ctx) -> Vec<Sweep> {
     let bases = Arc::new(bases(ctx, &env));
     let mut v = vec![];
     // (a) matrix
-    let rad = [bases.len() as u64, 5, 5, 5, 5, ALGOS.len() as u64];
+    // last axis: index order of (signature, main) header: sorted / reversed / first entry moved last
+    const ORDERS: [(u8, u8); 6] = [(0, 0), (1, 0), (2, 0), (0, 1), (1, 1), (2, 2)];
+    let rad = [bases.len() as u64, 5, 5, 5, 5, ALGOS.len() as u64, ORDERS.len() as u64];
     let n = product(&rad);
-    let rule = format!("{} base packages (2 hand-encoded, built empty, built with a file, 6 assets) × each of MD5 / SHA-1 / SHA-256 / payload SHA-256 ∈ {{absent, correct, wrong in first / middle / last position}} × payload digest algorithm ∈ {:?}; oracle: independent recomputation, Ok ⇔ all recorded digests match, mismatch ⇒ DigestMismatchError, algorithm ≠ 8 ⇒ error; non-trivial = reference verdict is not Ok", bases.len(), ALGOS);
+    let rule = format!("{} base packages (2 hand-encoded, built empty, built with a file, 6 assets) × each of MD5 / SHA-1 / SHA-256 / payload SHA-256 ∈ {{absent, correct, wrong in first / middle / last position}} × payload digest algorithm ∈ {:?}; for every third base also with the index entries of either header reversed / rotated (the format does not prescribe an order); oracle: independent recomputation, Ok ⇔ all recorded digests match, mismatch ⇒ DigestMismatchError, algorithm ≠ 8 ⇒ error; non-trivial = reference verdict is not Ok", bases.len(), ALGOS);
     let b2 = bases.clone();
     v.push(Sweep::new("matrix", rule, n, move |i, acc| {
         let bases = &b2;
@@ -60,11 +62,17 @@ pub fn sweeps(ctx: &Ctx) -> Vec<Sweep> {
         if plan.payload == D::Absent && d[5] != 0 {
             return; // the algorithm axis only exists when a payload digest is recorded
         }
+        let order = ORDERS[d[6] as usize];
+        if order != (0, 0) && (d[1] > 2 || d[2] > 2 || d[3] > 2 || d[4] > 2 || d[0] % 3 != 0) {
+            return; // unsorted index orders: every third base, digests ∈ {absent, correct, wrong}
+        }
         acc.evals += 1;
         let (name, parts) = &bases[d[0] as usize];
-        let (x, _) = with_digests(parts, &plan);
+        let mut parts = parts.clone();
+        parts.order = order;
+        let (x, _) = with_digests(&parts, &plan);
         let case = || {
-            let mut c = json!({"base": name, "plan": format!("{:?}", plan)});
+            let mut c = json!({"base": name, "plan": format!("{:?}", plan), "index_order(sig,main: 0 sorted, 1 reversed, 2 rotated)": [order.0, order.1]});
             if x.len() < 4096 {
                 c["bytes_hex"] = json!(vlib::hex(&x));
             }
